@@ -1,0 +1,10 @@
+//go:build !verif
+
+// Package verifhook provides named observation points for external
+// verification harnesses. Without the "verif" build tag every function
+// in this package is an empty, inlinable no-op.
+package verifhook
+
+// At marks a named point in the code. It does nothing unless the
+// "verif" build tag is set.
+func At(name string) {}
